@@ -42,28 +42,29 @@ theorem lift_ne_fuel_unlink (root : Bool) (s : FS) (p : Path) (hne : p ≠ []) (
 
 section Loop3
 variable (root : Bool) (rec : FS → Path → Res)
-variable (hrec : ∀ (s : FS) (q : Path), q ≠ [] → Canon s q → Untouched q s (rec s q).2)
-variable (hsh : ∀ (s : FS) (q : Path), q ≠ [] → Canon s q → Shrinks s (rec s q).2)
+variable (hrec : ∀ (s : FS) (q : Path), q ≠ [] → Canon s q → isDirAt s q = true → Untouched q s (rec s q).2)
+variable (hsh : ∀ (s : FS) (q : Path), q ≠ [] → Canon s q → isDirAt s q = true → Shrinks s (rec s q).2)
 
 include hrec hsh in
 theorem rmEntries_shrinks (p : Path) :
-    ∀ (es : List (Name × Bool)) (s : FS), Canon s p → isDirAt s p = true → Shrinks s (rmEntries root rec p es s).2 := by
+    ∀ (es : List (Name × Bool)) (s : FS), Canon s p → isDirAt s p = true → (es.map Prod.fst).Nodup →
+      (∀ x, (x, true) ∈ es → isDirAt s (p ++ [x]) = true) → Shrinks s (rmEntries root rec p es s).2 := by
   intro es
   induction es with
-  | nil => intro s _ _; exact Shrinks.refl _
+  | nil => intro s _ _ _ _; exact Shrinks.refl _
   | cons e es ih =>
-    intro s hc hd
+    intro s hc hd hnd hdirs
     obtain ⟨x, isD⟩ := e
     have hcc : Canon s (p ++ [x]) := canon_snoc x hc hd
     have hne' : p ++ [x] ≠ [] := by simp
     have hstep : Untouched (p ++ [x]) s
         (if isD then rec s (p ++ [x]) else lift s (unlink root s (p ++ [x]))).2 := by
       cases isD with
-      | true => simpa using hrec s (p ++ [x]) hne' hcc
+      | true => simpa using hrec s (p ++ [x]) hne' hcc (hdirs x List.mem_cons_self)
       | false => simpa using unlink_untouched root s (p ++ [x]) hne' hcc
     have hstep2 : Shrinks s (if isD then rec s (p ++ [x]) else lift s (unlink root s (p ++ [x]))).2 := by
       cases isD with
-      | true => simpa using hsh s (p ++ [x]) hne' hcc
+      | true => simpa using hsh s (p ++ [x]) hne' hcc (hdirs x List.mem_cons_self)
       | false => simpa using unlink_shrinks root s (p ++ [x]) hne' hcc
     unfold rmEntries
     generalize (if isD then rec s (p ++ [x]) else lift s (unlink root s (p ++ [x]))) = r at hstep hstep2
@@ -76,17 +77,18 @@ theorem rmEntries_shrinks (p : Path) :
       have hd' : isDirAt s' p = true := by
         unfold isDirAt at hd ⊢
         rw [hstep p (offChildren_self p x)]; exact hd
-      exact Shrinks.trans hstep2 (ih s' hc' hd')
+      simp only [List.map_cons, List.nodup_cons] at hnd
+      exact Shrinks.trans hstep2 (ih s' hc' hd' hnd.2 (dirs_step hstep hnd.1 hdirs))
 
 end Loop3
 
 theorem rmRec_shrinks (root : Bool) : ∀ (f : Nat) (s : FS) (p : Path), p ≠ [] → Canon s p →
-    Shrinks s (rmRec root f s p).2 := by
+    isHardAt s p = false → Shrinks s (rmRec root f s p).2 := by
   intro f
   induction f with
-  | zero => intro s p _ _; exact Shrinks.refl _
+  | zero => intro s p _ _ _; exact Shrinks.refl _
   | succ f ih =>
-    intro s p hne hc
+    intro s p hne hc hnh
     unfold rmRec
     cases lstat_canon root s p hne hc with
     | access h => rw [h]; exact Shrinks.refl _
@@ -104,7 +106,7 @@ theorem rmRec_shrinks (root : Bool) : ∀ (f : Nat) (s : FS) (p : Path), p ≠ [
                 | (.error e, fs2) => (Except.error e, fs2)
                 | (.ok _, fs2) => lift fs2 (rmdir root fs2 p)).2 := by
         intro hl
-        cases chmod_canon root s p 0o777 hne hc hl with
+        cases chmod_canon root s p 0o777 hne hc hl hnh with
         | failed e hch _ _ => rw [hch]; exact Shrinks.refl _
         | done v0 v' hch hv0 hdir hlink =>
           rw [hch]
@@ -117,17 +119,20 @@ theorem rmRec_shrinks (root : Bool) : ∀ (f : Nat) (s : FS) (p : Path), p ≠ [
             cases v' with
             | link t => simp [Node.isLink] at hlink
             | file m c => rfl
+            | hard i m c => rfl
             | dir m => rfl
           cases readDir_canon root (fset s p v') p hne hc1 hl1 with
           | failed e hrd _ _ => rw [hrd]; exact hs1
-          | done es hrd hd1 _ _ =>
+          | done es hrd hd1 hnd _ hdirs =>
             rw [hrd]
             simp only
             have hfr := rmEntries_frame root (fun s q => rmRec root f s q)
-              (fun s q hq hcq => rmRec_untouched root f s q hq hcq) p es (fset s p v') hc1 hd1
+              (fun s q hq hcq hdq => rmRec_untouched root f s q hq hcq (isHardAt_of_isDirAt hdq))
+              p es (fset s p v') hc1 hd1 hnd hdirs
             have hsh := rmEntries_shrinks root (fun s q => rmRec root f s q)
-              (fun s q hq hcq => rmRec_untouched root f s q hq hcq) (fun s q hq hcq => ih s q hq hcq)
-              p es (fset s p v') hc1 hd1
+              (fun s q hq hcq hdq => rmRec_untouched root f s q hq hcq (isHardAt_of_isDirAt hdq))
+              (fun s q hq hcq hdq => ih s q hq hcq (isHardAt_of_isDirAt hdq))
+              p es (fset s p v') hc1 hd1 hnd hdirs
             generalize rmEntries root (fun s q => rmRec root f s q) p es (fset s p v') = r at hfr hsh
             obtain ⟨res, s2⟩ := r
             cases res with
@@ -140,6 +145,7 @@ theorem rmRec_shrinks (root : Bool) : ∀ (f : Nat) (s : FS) (p : Path), p ≠ [
       cases v with
       | link t => simp only; exact unlink_shrinks root s p hne hc
       | file m c => exact main (by simp [isLinkAt, hv])
+      | hard i m c => simp [isHardAt, hv] at hnh
       | dir m => exact main (by simp [isLinkAt, hv])
 
 /-- every recorded path is shorter than `bound` -/
@@ -150,21 +156,22 @@ theorem shorter_of_shrinks {s s' : FS} {b : Nat} (h : Shorter s b) (hs : Shrinks
 
 section Loop4
 variable (root : Bool) (rec : FS → Path → Res) (bound : Nat) (p : Path)
-variable (hrec : ∀ (s : FS) (q : Path), q ≠ [] → Canon s q → Untouched q s (rec s q).2)
-variable (hsh : ∀ (s : FS) (q : Path), q ≠ [] → Canon s q → Shrinks s (rec s q).2)
-variable (hnf : ∀ (s : FS) (x : Name), Canon s (p ++ [x]) → (fget s (p ++ [x])).isSome = true → Shorter s bound →
-  (rec s (p ++ [x])).1 ≠ .error .fuel)
+variable (hrec : ∀ (s : FS) (q : Path), q ≠ [] → Canon s q → isDirAt s q = true → Untouched q s (rec s q).2)
+variable (hsh : ∀ (s : FS) (q : Path), q ≠ [] → Canon s q → isDirAt s q = true → Shrinks s (rec s q).2)
+variable (hnf : ∀ (s : FS) (x : Name), Canon s (p ++ [x]) → isDirAt s (p ++ [x]) = true →
+  (fget s (p ++ [x])).isSome = true → Shorter s bound → (rec s (p ++ [x])).1 ≠ .error .fuel)
 
 include hrec hsh hnf in
 theorem rmEntries_ne_fuel :
     ∀ (es : List (Name × Bool)) (s : FS), Canon s p → isDirAt s p = true → (es.map Prod.fst).Nodup →
-      (∀ x ∈ es.map Prod.fst, (fget s (p ++ [x])).isSome = true) → Shorter s bound →
+      (∀ x ∈ es.map Prod.fst, (fget s (p ++ [x])).isSome = true) →
+      (∀ x, (x, true) ∈ es → isDirAt s (p ++ [x]) = true) → Shorter s bound →
       (rmEntries root rec p es s).1 ≠ .error .fuel := by
   intro es
   induction es with
-  | nil => intro s _ _ _ _ _ h; cases h
+  | nil => intro s _ _ _ _ _ _ h; cases h
   | cons e es ih =>
-    intro s hc hd hnd hpres hshort
+    intro s hc hd hnd hpres hdirs hshort
     obtain ⟨x, isD⟩ := e
     have hcc : Canon s (p ++ [x]) := canon_snoc x hc hd
     have hne' : p ++ [x] ≠ [] := by simp
@@ -172,15 +179,15 @@ theorem rmEntries_ne_fuel :
     have hstep : Untouched (p ++ [x]) s
         (if isD then rec s (p ++ [x]) else lift s (unlink root s (p ++ [x]))).2 := by
       cases isD with
-      | true => simpa using hrec s (p ++ [x]) hne' hcc
+      | true => simpa using hrec s (p ++ [x]) hne' hcc (hdirs x List.mem_cons_self)
       | false => simpa using unlink_untouched root s (p ++ [x]) hne' hcc
     have hstep2 : Shrinks s (if isD then rec s (p ++ [x]) else lift s (unlink root s (p ++ [x]))).2 := by
       cases isD with
-      | true => simpa using hsh s (p ++ [x]) hne' hcc
+      | true => simpa using hsh s (p ++ [x]) hne' hcc (hdirs x List.mem_cons_self)
       | false => simpa using unlink_shrinks root s (p ++ [x]) hne' hcc
     have hres : (if isD then rec s (p ++ [x]) else lift s (unlink root s (p ++ [x]))).1 ≠ .error .fuel := by
       cases isD with
-      | true => simpa using hnf s x hcc hx hshort
+      | true => simpa using hnf s x hcc (hdirs x List.mem_cons_self) hx hshort
       | false => simpa using lift_ne_fuel_unlink root s (p ++ [x]) hne' hcc
     unfold rmEntries
     generalize (if isD then rec s (p ++ [x]) else lift s (unlink root s (p ++ [x]))) = r at hstep hstep2 hres
@@ -194,7 +201,7 @@ theorem rmEntries_ne_fuel :
         unfold isDirAt at hd ⊢
         rw [hstep p (offChildren_self p x)]; exact hd
       simp only [List.map_cons, List.nodup_cons] at hnd
-      apply ih s' hc' hd' hnd.2 _ (shorter_of_shrinks hshort hstep2)
+      refine ih s' hc' hd' hnd.2 ?_ (dirs_step hstep hnd.1 hdirs) (shorter_of_shrinks hshort hstep2)
       intro y hy
       have hxy : x ≠ y := by intro e; subst e; exact hnd.1 hy
       rw [hstep (p ++ [y]) (isPre_snoc_snoc hxy)]
@@ -204,15 +211,16 @@ end Loop4
 
 /-- with a budget exceeding the length of every recorded path below `p`, the recursion never runs out of budget -/
 theorem rmRec_ne_fuel (root : Bool) : ∀ (f : Nat) (s : FS) (p : Path), p ≠ [] → Canon s p →
-    (fget s p).isSome = true → Shorter s (p.length + f) → (rmRec root f s p).1 ≠ .error .fuel := by
+    isHardAt s p = false → (fget s p).isSome = true → Shorter s (p.length + f) →
+    (rmRec root f s p).1 ≠ .error .fuel := by
   intro f
   induction f with
   | zero =>
-    intro s p _ _ hs hshort
+    intro s p _ _ _ hs hshort
     have := hshort p hs
     omega
   | succ f ih =>
-    intro s p hne hc hs hshort
+    intro s p hne hc hnh hs hshort
     unfold rmRec
     cases lstat_canon root s p hne hc with
     | access h => rw [h]; intro e; cases e
@@ -230,7 +238,7 @@ theorem rmRec_ne_fuel (root : Bool) : ∀ (f : Nat) (s : FS) (p : Path), p ≠ [
                 | (.error e, fs2) => (Except.error e, fs2)
                 | (.ok _, fs2) => lift fs2 (rmdir root fs2 p)).1 ≠ .error .fuel := by
         intro hl
-        cases chmod_canon root s p 0o777 hne hc hl with
+        cases chmod_canon root s p 0o777 hne hc hl hnh with
         | failed e hch _ hf => rw [hch]; intro heq; exact hf (by simpa using heq)
         | done v0 v' hch hv0 hdir hlink =>
           rw [hch]
@@ -243,22 +251,24 @@ theorem rmRec_ne_fuel (root : Bool) : ∀ (f : Nat) (s : FS) (p : Path), p ≠ [
             cases v' with
             | link t => simp [Node.isLink] at hlink
             | file m c => rfl
+            | hard i m c => rfl
             | dir m => rfl
           have hshort1 : Shorter (fset s p v') (p.length + 1 + f) := by
             have := shorter_of_shrinks hshort hs1
             intro k hk; have := this k hk; omega
           cases readDir_canon root (fset s p v') p hne hc1 hl1 with
           | failed e hrd _ hf => rw [hrd]; intro heq; exact hf (by simpa using heq)
-          | done es hrd hd1 hnd hpres =>
+          | done es hrd hd1 hnd hpres hdirs =>
             rw [hrd]
             simp only
             have hfr := rmEntries_frame root (fun s q => rmRec root f s q)
-              (fun s q hq hcq => rmRec_untouched root f s q hq hcq) p es (fset s p v') hc1 hd1
+              (fun s q hq hcq hdq => rmRec_untouched root f s q hq hcq (isHardAt_of_isDirAt hdq))
+              p es (fset s p v') hc1 hd1 hnd hdirs
             have hnf' := rmEntries_ne_fuel root (fun s q => rmRec root f s q) (p.length + 1 + f) p
-              (fun s q hq hcq => rmRec_untouched root f s q hq hcq)
-              (fun s q hq hcq => rmRec_shrinks root f s q hq hcq)
-              (fun s x hcq hsq hshq => ih s (p ++ [x]) (by simp) hcq hsq (by simpa using hshq))
-              es (fset s p v') hc1 hd1 hnd hpres hshort1
+              (fun s q hq hcq hdq => rmRec_untouched root f s q hq hcq (isHardAt_of_isDirAt hdq))
+              (fun s q hq hcq hdq => rmRec_shrinks root f s q hq hcq (isHardAt_of_isDirAt hdq))
+              (fun s x hcq hdq hsq hshq => ih s (p ++ [x]) (by simp) hcq (isHardAt_of_isDirAt hdq) hsq (by simpa using hshq))
+              es (fset s p v') hc1 hd1 hnd hpres hdirs hshort1
             generalize rmEntries root (fun s q => rmRec root f s q) p es (fset s p v') = r at hfr hnf'
             obtain ⟨res, s2⟩ := r
             cases res with
@@ -273,6 +283,7 @@ theorem rmRec_ne_fuel (root : Bool) : ∀ (f : Nat) (s : FS) (p : Path), p ≠ [
       cases v with
       | link t => simp only; exact lift_ne_fuel_unlink root s p hne hc
       | file m c => exact main (by simp [isLinkAt, hv])
+      | hard i m c => simp [isHardAt, hv] at hnh
       | dir m => exact main (by simp [isLinkAt, hv])
 
 theorem fget_len_le_max {s : FS} {k : Path} (h : (fget s k).isSome = true) : k.length ≤ maxKeyLen s := by
@@ -322,13 +333,17 @@ theorem unlinkAll_ne_fuel (root : Bool) (d : Name) : ∀ (names : List Name) (s 
 /-- `delete_layer` in the model never fails for lack of recursion budget -/
 theorem deleteLayer_ne_fuel (root : Bool) (t : FS) (n : Name) (hd : isDirAt t [layersName] = true) :
     (deleteLayer root t n).1 ≠ .error .fuel := by
+  cases hh : isHardAt t (layerPath n) with
+  | true => rcases deleteLayer_hard_fails root t n hd hh with h | h <;> · rw [h]; intro e; cases e
+  | false =>
+  have hnh := hh
   have hc : Canon t (layerPath n) := canon_pair t _ _ hd
   have hne := layerPath_ne n
   have hrm : (rmRec root (depthFuel t) t (layerPath n)).1 ≠ .error .fuel := by
     cases hg : fget t (layerPath n) with
     | none => exact rmRec_absent_fst root _ t _ hne hc hg
     | some v =>
-      apply rmRec_ne_fuel root _ t _ hne hc (by simp [hg])
+      apply rmRec_ne_fuel root _ t _ hne hc hnh (by simp [hg])
       intro k hk
       have := fget_len_le_max hk
       simp only [depthFuel, layerPath, List.length_cons, List.length_nil]
@@ -336,7 +351,7 @@ theorem deleteLayer_ne_fuel (root : Bool) (t : FS) (n : Name) (hd : isDirAt t [l
   rcases deleteLayer_cases root t n with ⟨h, _⟩ | ⟨h, _⟩
   · rw [h]; exact hrm
   · rw [h]
-    have hu := rmRec_untouched root (depthFuel t) t (layerPath n) hne hc
+    have hu := rmRec_untouched root (depthFuel t) t (layerPath n) hne hc hnh
     have hd1 := layersDir_of_frame (n := n) (frame_of_untouched hu) hd
     have := unlinkAll_ne_fuel root layersName (ownNames n) _ hd1
     rw [ownNames_paths] at this
